@@ -190,6 +190,13 @@ def check_close(ctx, model):
                         det.append(sorted(map(repr, os_)))
                         ok_amt = bool(os_) and all(x.kind == "load" and x.a.endswith("::state::OPEN_POSITIONS") and x.proj and x.proj[-1] == "amount" for x in os_)
     ctx.ob("C11-K3", "%s|closed-amount-is-open-amount" % CLOSE, ok_amt, "ClosedPosition.amount from %s (must be the open position's amount)" % det, v.where())
+    # the position read (amount, duration), the position cloned for the response and the position removed are one and the
+    # same list element: every index into the open list is the result of the `position(..)` lookup
+    idx_sites = v.calls_to(r"as std::ops::Index<usize>>::index$|as std::ops::IndexMut<usize>>::index_mut$|^std::vec::Vec::(remove|swap_remove)$")
+    idx_o = [sorted(map(repr, v.origins_of_operand(t["args"][1], at=v.at_term(b)))) for b, t in idx_sites]
+    ok_idx = bool(idx_sites) and all(os_ and all("Iterator>::position" in x for x in os_) for os_ in idx_o) and len({tuple(x) for x in idx_o}) == 1
+    ctx.ob("C11-K3", "%s|one-index-for-read-and-removal" % CLOSE, ok_idx and any("Vec::remove" in mname(t) or "swap_remove" in mname(t) for b, t in idx_sites),
+           "indices into the open-position list: %s (all must be the position(..) lookup result)" % idx_o, v.where())
     for b, t in cl + op:
         k = arg_origins(v, b, t, 2)
         ctx.ob("C11-K3", "%s|key-is-sender|bb" % CLOSE, bool(k) and all(o.kind == "param" and tuple(o.proj) == ("sender",) for o in k),
@@ -261,6 +268,23 @@ def check_withdraw(ctx, model):
                 ctx.ob("C11-K4", "%s|add-and-remove-together" % WITHDRAW, ok,
                        "closure adds each closed amount (%d add sites) and removes the entry (%d remove sites) on the same paths: %s" % (len(adds), len(rems), ok), cv.where())
     xf = v.calls_to(r"Asset::into_msg$")
+    # the closed positions are erased by the update above whatever their total: the payout may be skipped only when that
+    # total is exactly zero (ordering-domain walk over the constants the code compares the total with)
+    from fractions import Fraction
+    from ..dataflow import single_var_guard, single_var_regions, single_var_walk
+    is_total = lambda os_: bool(os_) and any(o.kind == "call" and o.a.endswith("Uint128::checked_add") for o in os_)
+    tracked, ths = single_var_guard(v, is_total, [Fraction(0)])
+    rows, bad = [], []
+    for x in single_var_regions(ths):
+        if x < 0:
+            continue
+        reach = single_var_walk(v, tracked, x)
+        paid = any(b in reach for b, _ in xf)
+        rows.append("%s:%s" % (x, "paid" if paid else "skipped"))
+        if x > 0 and not paid:
+            bad.append("a closed total of %s is erased without payout" % x)
+    ctx.ob("C11-K4", "%s|payout-skipped-only-for-zero" % WITHDRAW, bool(tracked) and bool(xf) and not bad and not getattr(v, "_unresolved_cmp", []),
+           ("MISMATCH %s | " % bad if bad else "") + "closed-total regions: %s" % rows, v.where())
     if not xf:
         ctx.ob("C11-K4", "%s|payout" % WITHDRAW, False, "no transfer of the withdrawn LP is built", v.where())
     for b, t in xf:
